@@ -215,3 +215,21 @@ def c11(run):
     run.cov['rule'] = ('8 MAC algorithms x random keys x message lengths 0..40 (every residue mod 16), neighbourhoods of 64/128, 4095..5000 (thorough: 0..400, 16384, 65535, 65536) '
                        'with tags compared to the Gallina reference; per message: truncated/extended/bit-flipped/empty tags, other data, other key; key sizes 0..65; SHA-2 digests vs Go')
     return D.finish(run, 'proof')
+
+
+# ------------------------------------------------------------------ C13
+
+@check('C13')
+def c13(run):
+    run.assumptions += ['golang.org/x/crypto/hkdf and Go AES/CBC are modelled by the Gallina references and compared byte for byte (not verified)',
+                        'HKDF-SHA: the library delegates to x/crypto; the theorems are RFC 5869 properties of the specification it is compared with']
+    run.trusted += ['Gallina HMAC-SHA-2, AES, CBC-MAC, HKDF in coq/Lib (validated on published vectors)']
+    D.prove(run, extra_targets=['Model/CryptoCorr.vo'])
+    rc, o = D.harness_build()
+    if rc != 0:
+        run.broke('harness build', o[-1500:])
+    else:
+        D.correspond(run, 'hkdf', [], reference_theorem='C13_reads_is_expand / C13_hkdf_sha (RFC 5869 reference)')
+    run.cov['rule'] = ('HKDF-AES-128/256: info lengths covering every residue mod 16 (thorough: 0..200) x random chunkings of one reader x the 255-block limit in one read and across reads x bad secret sizes, '
+                       "compared with the Gallina reference and (in Go) with RFC 5869 expand over the library's own AES-MAC; HKDF-SHA-256/512: random secret/salt/info (incl. empty), lengths 0..255*HashLen+1")
+    return D.finish(run, 'proof')
